@@ -366,6 +366,26 @@ impl<'a> GeneratorState<'a> {
     {
         let mut acc_in_use = self.acc_in_use;
         let signed;
+        if high_byte && *op == Operation::Brs(false) {
+            // High byte of an 8 bits value shifted to the right: only its sign is left
+            let eight_bits_signed = match left {
+                ExprType::Absolute(varname, eight_bits, _) => {
+                    let v = self.compiler_state.get_variable(varname);
+                    if *eight_bits || v.var_type == VariableType::Char { Some(v.signed) } else { None }
+                },
+                ExprType::AbsoluteX(varname) | ExprType::AbsoluteY(varname) => {
+                    let v = self.compiler_state.get_variable(varname);
+                    if v.var_type == VariableType::CharPtr { Some(v.signed) } else { None }
+                },
+                ExprType::X | ExprType::Y => Some(false),
+                _ => None,
+            };
+            match eight_bits_signed {
+                Some(true) => return self.generate_sign_extend(left.clone(), pos),
+                Some(false) => return Ok(ExprType::Immediate(0)),
+                None => (),
+            }
+        }
         match left {
             ExprType::Immediate(l) => {
                 match right {
